@@ -2,7 +2,7 @@
    Statements only; proofs in Proofs/CloseCodecP.v, Proofs/CloseSMP.v, Proofs/ReaderP.v. *)
 From Coq Require Import List NArith ZArith Bool.
 From WS Require Import Base.Words Gen.Consts Gen.CloseCode Model.Mask Model.Frame Model.CloseCodec Model.CloseSM Model.Reader
-  Proofs.CloseCodecP Proofs.CloseSMP Proofs.ReaderP.
+  Proofs.CloseCodecP Proofs.CloseSMP Proofs.ReaderP Gen.ClosePayloadCode Proofs.GenTie2P.
 Import ListNotations.
 
 (* the status codes that may appear on the wire — a statement about the function TRANSLATED from close.go, on all of Z *)
@@ -75,3 +75,27 @@ Example C06_nonvacuous :
   snd (csm_run true cs_init [AClose 1000 [98; 121; 101]; AWrite; AClose 1000 []; ACloseNow; ARead]) = [CNil; CErrClosed; CErrClosed; CErrClosed; CErrClosed]
   /\ cs_wire (fst (csm_run true cs_init [AClose 1000 [98; 121; 101]; AWrite])) = [[3; 232; 98; 121; 101]].
 Proof. vm_compute. split; reflexivity. Qed.
+
+(* tie to the source by translation (tools/constx/nego.go, Gen/ClosePayloadCode.v, regenerated on every run): what Close refuses to
+   marshal is what the checks of CloseError.bytesErr refuse (reason length against maxCloseReason, then validWireCloseCode), the one
+   code sent without payload is the one writeClose exempts, and a received payload is parsed the way parseClosePayload parses it *)
+Theorem C06_refusal_is_source : forall code reason,
+  match close_bytes code reason with None => true | Some _ => false end = gen_close_bytes_refused (Z.of_nat (length reason)) code.
+Proof. exact close_bytes_is_source. Qed.
+Print Assumptions C06_refusal_is_source.
+
+Theorem C06_empty_payload_is_source : forall code reason,
+  close_payload code reason = if gen_close_has_payload code then close_bytes code reason else Some [].
+Proof. exact close_payload_is_source. Qed.
+Print Assumptions C06_empty_payload_is_source.
+
+Theorem C06_parse_is_source : forall p,
+  let code := Z.of_N (be_val (firstn 2 p)) in
+  parse_close p =
+  match gen_parse_close (Z.of_nat (length p)) code with
+  | 0%Z => Some (c_StatusNoStatusRcvd, [])
+  | 1%Z => Some (code, skipn 2 p)
+  | _ => None
+  end.
+Proof. exact parse_close_is_source. Qed.
+Print Assumptions C06_parse_is_source.
